@@ -9,13 +9,15 @@ for l in open(os.path.join(VERIF, "properties.jsonl")):
 import importlib, sys
 sys.path.insert(0, os.path.join(VERIF, "tools"))
 # every tools/props/cNN.py that defines CLAIM = dict(text=..., note=..., technique=..., design=...) is claimed
+# only properties listed in claimed.txt (maintained by the lead after the check passed on the unchanged tree)
+ENABLED = set(open(os.path.join(VERIF, "claimed.txt")).read().split())
 CLAIMED = {}
 for pid in sorted(props):
     try:
         mod = importlib.import_module("props." + pid.lower())
     except ModuleNotFoundError:
         continue
-    if getattr(mod, "CLAIM", None):
+    if getattr(mod, "CLAIM", None) and pid in ENABLED:
         CLAIMED[pid] = mod.CLAIM
 NOT_APPLICABLE = {}
 
